@@ -280,7 +280,12 @@ pub fn extract_tls_signature_from_client_hello(
         match parse_tls_extensions(ext_data) {
             Ok((_remaining, parsed_extensions)) => {
                 for extension in &parsed_extensions {
-                    let ext_type: u16 = TlsExtensionType::from(extension).into();
+                    // tls-parser files every type matching 0x?a?a under `Grease` and reports it as
+                    // 0xfafa: keep the type that was on the wire, only the 16 GREASE values are dropped
+                    let ext_type: u16 = match extension {
+                        TlsExtension::Grease(wire_type, _) => *wire_type,
+                        _ => TlsExtensionType::from(extension).into(),
+                    };
 
                     // Filter GREASE extensions
                     if !TLS_GREASE_VALUES.contains(&ext_type) {
